@@ -65,11 +65,14 @@ pub trait TokenReleaseModule: config::ConfigModule {
             "Wrong vesting release recurrency"
         );
 
-        let unlock_percentage =
-            initial_release_percentage + vesting_release_times * vesting_release_percentage;
+        let unlock_percentage = vesting_release_times
+            .checked_mul(vesting_release_percentage)
+            .and_then(|vesting_percentage| {
+                vesting_percentage.checked_add(initial_release_percentage)
+            });
 
         require!(
-            unlock_percentage == MAX_PERCENTAGE,
+            unlock_percentage == Some(MAX_PERCENTAGE),
             "Unlock percentage is not 100%"
         );
 
